@@ -40,6 +40,13 @@ CHECKS = {
  'C09': dict(engine='P', technique='exhaustive enumeration of the predefined-summary table (signature conformance) + one-call programs per (entry, argument position) executed natively with tokens vs real taint analysis (tool load path)',
              text='Every table entry is resolved against a program importing all table packages and every Args/Rets index is checked against the real signature; for every entry invocable with type-directed synthesised arguments and every argument position a one-call program carries a token in that argument only: every natively observed flow into a result, a pointer-like argument or the receiver must be reported when the summary is applied.',
              note='string-like token carriers only; not-invocable entries listed in the evidence; net/ and crypto/ tables only in thorough', ref='§6 C09'),
+
+ 'C12': dict(engine='P', technique='bounded-exhaustive enumeration of dispatch-form sequences + exhaustive native execution with a dynamic call-stack recorder vs pointer call graph / ResolveCallee',
+             text='All sequences of <=2 (thorough <=3) hops over 22 dispatch forms; every natively executed function must be in the reachable set and every dynamic caller->callee transfer must have a call-graph path through synthetic wrappers only and be contained in the dataflow callee resolution.',
+             note='function-granular matching (not per call-site line); small-scope bound on hops', ref='§6 C12'),
+ 'C18': dict(engine='P', technique='same dispatch enumeration + native execution vs FindReachable under all four root selections; inclusion and monotonicity clauses',
+             text='Every natively executed function must be reported by FindReachable (all roots, -noinit); every function reachable in the pointer call graph must be reported; the reported set is within all program functions and shrinks monotonically when roots are excluded.',
+             note='-nomain selections demand nothing natively; CLI json output not compared', ref='§6 C18'),
 }
 NA = []
 def main():
